@@ -285,7 +285,7 @@ func (r *Report) Finish() {
 	}
 	b, _ := json.MarshalIndent(ev, "", " ")
 	_ = os.MkdirAll(filepath.Join(outRoot(), "evidence"), 0o755)
-	if err := os.WriteFile(filepath.Join(outRoot(), "evidence", r.Property+".json"), b, 0o644); err != nil {
+	if err := os.WriteFile(filepath.Join(outRoot(), "evidence", r.Property+os.Getenv("VERIF_EVIDENCE_SUFFIX")+".json"), b, 0o644); err != nil {
 		fmt.Fprintf(os.Stderr, "HARNESS-ERROR cannot write evidence: %v\n", err)
 		os.Exit(2)
 	}
